@@ -20,6 +20,7 @@ type c03Case struct {
 	Keys []string `json:"keys,omitempty"` // default h<k>; "source" exercises the exceptions
 	I    int      `json:"i"`              // delete/erase: offset; slice: start
 	N    int      `json:"n"`              // delete/erase: length; slice: end
+	Wide bool     `json:"wide_domain,omitempty"` // location from the non-clean domain: relaxed oracle (de-duplicated bases in order, range)
 }
 
 func c03Keys(c c03Case) []string {
@@ -167,9 +168,52 @@ func c03TwoSources(c c03Case) (ok bool, sig, detail string) {
 	return true, "", ""
 }
 
+// c03Wide: locations with overlapping parts, sites inside joins and inner markers (shapes that edits reach).
+// Judged: residues, the de-duplicated base atoms in order and strand, coordinates inside the new sequence.
+func c03Wide(c c03Case) (ok bool, sig, detail string) {
+	locs, err := decodeAll(c.Locs)
+	if err != nil {
+		return true, "", err.Error()
+	}
+	res := locdom.Seq(c.L)
+	var out gts.Sequence
+	if p, msg := engine.Safely(func() { out = gts.Delete(mkSeq(res, locs, "h"), c.I, c.N) }); p {
+		return false, "panic", "panic: " + msg
+	}
+	want := string(res[:c.I]) + string(res[c.I+c.N:])
+	if string(out.Bytes()) != want {
+		return false, "residues", fmt.Sprintf("residues %q want %q", out.Bytes(), want)
+	}
+	for k, loc := range locs {
+		f, cnt := findOnce(out.Features(), fmt.Sprintf("h%d", k))
+		if cnt != 1 {
+			return false, "feature-once", fmt.Sprintf("feature h%d present %d times", k, cnt)
+		}
+		what := fmt.Sprintf("delete(%s, %d, %d) on L=%d = %s", loc, c.I, c.N, c.L, printLoc(f.Loc))
+		obs, dok := refmodel.Den(f.Loc)
+		if !dok {
+			return false, "malformed-location", what + " is not a well-formed location (" + locdom.Encode(f.Loc) + ")"
+		}
+		if !obs.InRange(len(want)) {
+			return false, "out-of-range", what + " leaves the new sequence"
+		}
+		exp := denOf(loc).MapDelete(c.I, c.N)
+		if !dedupBases(exp).Equal(dedupBases(obs)) {
+			if dropRangedThenPointDedup(exp, dedupBases(obs)) {
+				return false, "join-ranged-then-point-end-dropped", what + fmt.Sprintf(" denotes %s, want %s", obs, exp)
+			}
+			return false, "denotation", what + fmt.Sprintf(" denotes bases %s, want %s", dedupBases(obs), dedupBases(exp))
+		}
+	}
+	return true, "", ""
+}
+
 func c03Eval(c c03Case) (ok bool, sig, detail string) {
 	if c.Op == "slice2src" {
 		return c03TwoSources(c)
+	}
+	if c.Wide {
+		return c03Wide(c)
 	}
 	locs, err := decodeAll(c.Locs)
 	if err != nil {
@@ -515,6 +559,27 @@ func init() {
 					break
 				}
 				r.Extra["L_completed"] = L
+			}
+			// reachable, non-clean shapes through Delete with the relaxed oracle
+			if complete {
+				wideL := []int{2, 3}
+				if r.Tier == "thorough" {
+					wideL = []int{2, 3, 4}
+				}
+				for _, L := range wideL {
+					locs := locdom.All(L, locdom.Opts{MaxParts: 2, Overlap: true, Sites: true, InnerFlags: true})
+					var args [][2]int
+					for i := 0; i <= L; i++ {
+						for n := 1; i+n <= L; n++ {
+							args = append(args, [2]int{i, n})
+						}
+					}
+					done := r.ParallelFor(len(locs)*len(args), func(idx int) {
+						a := args[idx%len(args)]
+						eval(c03Case{Op: "delete", L: L, Locs: []string{locdom.Encode(locs[idx/len(args)])}, I: a[0], N: a[1], Wide: true}, true)
+					})
+					complete = complete && done
+				}
 			}
 			// two-feature tables: a non-leading source, two sources (slice and erase exceptions must hold for each)
 			if complete {
